@@ -21,7 +21,8 @@ rundemo() { case "$KIND" in
   test) cargo test --offline --test seed_demo > "$W/demo.log" 2>&1;;
   example) cargo run --offline --example seed_demo > "$W/demo.log" 2>&1;;
   example-release) cargo run --offline --release --example seed_demo > "$W/demo.log" 2>&1;;
-  sh) cargo build --offline > /dev/null 2>&1; cargo build --offline --release > /dev/null 2>&1; sh "$W/seed_demo.sh" > "$W/demo.log" 2>&1;;
+  example-verif) cargo run --offline --features verif --example seed_demo > "$W/demo.log" 2>&1;;
+  sh) cargo build --offline > /dev/null 2>&1; cargo build --offline --release > /dev/null 2>&1; bash "$W/seed_demo.sh" "$W" > "$W/demo.log" 2>&1;;
 esac; echo $?; }
 place; WITHOUT=$(rundemo); unplace
 git apply "$SRC/patch.diff" || { echo "SEED $N: patch does not apply"; exit 2; }
